@@ -2,7 +2,8 @@
 # Re-runs, for every stored seeded change, the check of the property it was aimed at (scratch copy of /repo's current tree + the
 # patch, removed afterwards) and prints one line per seed; every line must say exit=1. Used after changes to the engine (new
 # analysis modes, recognisers) to make sure nothing that was caught is now let through.
-cd /verif
+ROOT="$(dirname "$(readlink -f "$0")")/.."; ROOT="$(readlink -f "$ROOT")"
+cd "$ROOT"
 for d in seeded/*/; do
   n=$(basename "$d"); id=${n%%-*}
   [ -f "$d/patch.diff" ] || continue
